@@ -24,6 +24,13 @@ output path is spelled and where $TMPDIR lives are inputs of every producer that
 Without flags: absolute output paths, $TMPDIR untouched.  xdev/tmp are set up by the orchestrator (process
 environment); rel/dot are applied here, right before the producer is called.
 
+SHORT WRITES: with C20_FSIZE=<n> in the environment the producer runs under a file-size limit of n bytes
+(resource.RLIMIT_FSIZE, soft limit, SIGXFSZ ignored), switched on right before the producer is called (`enter`): the
+kernel then stores only the bytes that still fit below n and returns that SHORT COUNT from write(2); a write starting at
+the limit fails with EFBIG.  This is what an almost full disk / an exhausted quota does (there: ENOSPC/EDQUOT).  Nothing
+of mwlib or of the os module is patched.  Byte code caching is off in such a run (a truncated .pyc must not reach the
+snapshot shared with other runs).
+
 Nothing in here writes below D except through the mwlib code under test (the dummy `writer` of the
 render producer writes to the temp path render.py hands it - that is the writer's contract).
 With C20_RECORD=<dir> (never under strace) a copy of every published file is taken after each publish
@@ -38,6 +45,10 @@ import warnings
 
 warnings.simplefilter("ignore")
 logging.disable(logging.CRITICAL)
+
+FSIZE = os.environ.get("C20_FSIZE")
+if FSIZE is not None:
+    sys.dont_write_bytecode = True
 
 RECORD = os.environ.get("C20_RECORD")
 _rec_n = [0]
@@ -69,9 +80,16 @@ def base_scenario(scenario):
 
 
 def enter(D):
-    """rel/dot: from here on the producer runs with the work directory as its current directory"""
+    """rel/dot: from here on the producer runs with the work directory as its current directory; C20_FSIZE: from here on
+    no file of this process grows beyond that many bytes (short write, then EFBIG)"""
     if _flags & {"rel", "dot"}:
         os.chdir(D)
+    if FSIZE is not None and not RECORD:
+        import resource
+        import signal
+        signal.signal(signal.SIGXFSZ, signal.SIG_IGN)
+        _soft, hard = resource.getrlimit(resource.RLIMIT_FSIZE)
+        resource.setrlimit(resource.RLIMIT_FSIZE, (int(FSIZE), hard))
 
 
 def outpath(D, name):
